@@ -72,6 +72,29 @@ def member_cursors(text):
     return sorted(set(out))
 
 
+def closure_lines(rng, ms, meths, u, val):
+    """a closure nested in a colon method that uses the method's `self` as an upvalue (seeded/C12-7: in the passes after
+    the first `self` was translated to its table only DIRECTLY in the body of `function T:m()`: references / highlight of
+    `T.v` missed `self.v` inside `local cb = function() self.v = q end` while definition / hover still resolved it).
+    Indented lines (the line-based readers `enclosing_method` / `chain_before` look for the nearest `function X:m(` header
+    above that no column-0 `end` closes)"""
+    m, m2 = rng.choice(ms), rng.choice(ms)
+    k = rng.random()
+    if k < 0.3:
+        out = ["  local cb = function(q)", "    self.%s = q" % m, "    return self.%s" % m2, "  end"]
+    elif k < 0.5:
+        out = ["  %s(function() return self.%s end)" % (u(), m)]
+    elif k < 0.65:
+        out = ["  local function helper(q)", "    self.%s = %s" % (m, val()), "    %s(self.%s, self)" % (u(), m2), "  end"]
+    elif k < 0.8:
+        out = ["  local cb = function()", "    return function(q)", "      self.%s = self.%s" % (m, m2), "    end", "  end"]
+    elif k < 0.9 and meths:
+        out = ["  local later = function(q)", "    self:%s(q)" % rng.choice(meths), "    return self.%s" % m, "  end"]
+    else:
+        out = ["  for i = 1, 2 do", "    %s(function(q) self.%s = i end)" % (u(), m), "  end"]
+    return out
+
+
 def gen_member_workspace(rng):
     """2-3 files, one statement per line.  Global tables, each defined at top level in exactly ONE file (constructor with
     keys or empty), members assigned / read / called in every file, colon methods using `self.k`, writes from files
@@ -113,6 +136,8 @@ def gen_member_workspace(rng):
                         m = rng.choice(ms)
                         body.append("  " + rng.choice(["%s.%s = %s" % (recv, m, val()), "%s(%s.%s)" % (u(), recv, m),
                                                       "local v = %s.%s" % (recv, m), "%s.%s = %s.%s" % (recv, m, recv, rng.choice(ms))]))
+                    if colon and rng.random() < 0.5:
+                        body += closure_lines(rng, ms, meths[t], u, val)
                     if rng.random() < 0.4:
                         body.append("  return %s.%s" % (recv, rng.choice(ms)))
                     body.append("end")
@@ -135,6 +160,8 @@ def gen_member_workspace(rng):
                     f = rng.choice(METHS)
                     body.append("function %s:%s()" % (t, f))                                  # a method added from this file
                     body.append("  self.%s = %s" % (m, val()))
+                    if rng.random() < 0.4:
+                        body += closure_lines(rng, ms, meths[t], u, val)
                     if rng.random() < 0.5:
                         body.append("  return self.%s" % rng.choice(ms))
                     body.append("end")
@@ -265,7 +292,31 @@ def chain_before(lines, l, s):
     return ch
 
 
-def defined_members(files, self_anywhere=True):
+HDR_RE = re.compile(r"function\s+[A-Za-z_][A-Za-z0-9_.]*[.:][A-Za-z_][A-Za-z0-9_]*\s*\(")
+
+
+def in_nested_function(lines, k, col):
+    """position (line k, column col) lies inside a function NESTED in the column-0 `function X.m(` / `function X:m(` the
+    line belongs to (the generator writes nested functions indented: `local cb = function(q)` ... `  end`, or on one line)"""
+    k0 = k
+    while k0 >= 0 and not HDR_RE.match(lines[k0]):
+        if k0 < k and lines[k0].startswith("end"):
+            return False
+        k0 -= 1
+    if k0 < 0 or k0 == k:
+        return False
+    depth = 0
+    for j in range(k0 + 1, k + 1):
+        code = lines[j].split("--")[0]
+        if j == k:
+            return depth > 0 or re.search(r"\bfunction\b", code[:col]) is not None
+        opens = len(re.findall(r"\bfunction\b", code))
+        if opens or depth > 0:
+            depth += opens + len(re.findall(r"\b(do|then)\b", code)) - len(re.findall(r"\bend\b", code))
+    return False
+
+
+def defined_members(files, self_anywhere=True, self_in_closure=True):
     """{(chain, name)} with a defining occurrence somewhere in the workspace: `chain.name = e` (also through `_G.`, and
     through `self` - with self_anywhere=False only in a file that assigns the table `X = ...` itself),
     `function chain.name(` / `chain:name(`, a key of the constructor `chain = { ... }`"""
@@ -276,6 +327,9 @@ def defined_members(files, self_anywhere=True):
             code = ln.split("--")[0]
             for m in re.finditer(r"(?<=[.])([A-Za-z_][A-Za-z0-9_]*)\s*=(?!=)", code):
                 ch = chain_before(lines, l, m.start(1))
+                if ch and not self_in_closure and re.search(r"\bself(\.[A-Za-z_][A-Za-z0-9_]*)*\.$", code[:m.start(1)]) \
+                        and in_nested_function(lines, l, m.start(1)):
+                    continue
                 if ch and not self_anywhere and re.search(r"\bself(\.[A-Za-z_][A-Za-z0-9_]*)*\.$", code[:m.start(1)]):
                     root = ch.split(".")[0]
                     if not any(re.match(r"%s\s*=(?!=)" % re.escape(root), x) for x in lines):
@@ -299,9 +353,39 @@ def cls_cursor_on_self(files, fi, lines, name, l, s, e):
 def cls_self_in_redefined_method(files, fi, lines, name, l, s, e):
     """`self`, or a member reached through `self`, in the body of a `function X:m(` that has an earlier `function X:m(` /
     `function X.m(` in the same file"""
-    if name != "self" and not re.search(r"\bself(\.[A-Za-z_][A-Za-z0-9_]*)*\.$", lines[l][:s]):
+    if name != "self" and not re.search(r"\bself(\.[A-Za-z_][A-Za-z0-9_]*)*[.:]$", lines[l][:s]):
         return False
     return in_redefined_method(lines, l)
+
+
+def cls_self_member_in_redefined_method_with_closure(files, fi, lines, name, l, s, e):
+    """a member reached through `self` (`self.k`, `self:m(`) in the body of a re-defined colon method (see above) that
+    contains a NESTED function mentioning a member of `self` (`self.x` / `self:x(`): hover then shows the bare type
+    (`any`) without the `self.k : ` label"""
+    if name == "self" or not re.search(r"\bself(\.[A-Za-z_][A-Za-z0-9_]*)*[.:]$", lines[l][:s]):
+        return False
+    if not in_redefined_method(lines, l):
+        return False
+    k0 = l
+    while k0 >= 0 and not HDR_RE.match(lines[k0]):
+        k0 -= 1
+    k1 = k0 + 1
+    while k1 < len(lines) and not lines[k1].startswith("end"):
+        k1 += 1
+    for k in range(k0 + 1, k1):
+        code = lines[k].split("--")[0]
+        for m in re.finditer(r"\bself[.:][A-Za-z_]", code):
+            if in_nested_function(lines, k, m.start()):
+                return True
+    return False
+
+
+def cls_defined_through_self_in_closure_only(files, fi, lines, name, l, s, e):
+    """every defining occurrence of the member is a `self.name = e` INSIDE a function nested in a colon method"""
+    if name == "self":
+        return False
+    ch = chain_before(lines, l, s)
+    return ch is not None and (ch, name) in defined_members(files) and (ch, name) not in defined_members(files, True, False)
 
 
 def in_redefined_method(lines, l):
@@ -371,6 +455,8 @@ MEMBER_CLASSES = [
     ("member_cursor_on_self", cls_cursor_on_self, {"hover-names-other"}),
     ("member_self_in_redefined_method", cls_self_in_redefined_method, {"refs-resolve-elsewhere", "not-in-refs-of-own-definition"}),
     ("member_used_in_redefined_method", cls_member_used_in_redefined_method, {"refs-resolve-elsewhere", "not-in-refs-of-own-definition"}),
+    ("member_self_in_redefined_method_closure", cls_self_member_in_redefined_method_with_closure, {"hover-names-other"}),
+    ("member_defined_through_self_in_closure_only", cls_defined_through_self_in_closure_only, {"not-in-refs-of-own-definition", "hover-names-other"}),
     ("member_undefined", cls_undefined_member, {"not-in-refs-of-own-definition", "hover-names-other"}),
     ("member_defined_through_self_elsewhere", cls_defined_through_self_elsewhere, {"not-in-refs-of-own-definition", "hover-names-other"}),
     ("member_depth2_other_file", cls_depth2_member_other_file, {"not-in-refs-of-own-definition", "hover-names-other"}),
@@ -503,6 +589,8 @@ _REDEF = [("a.lua", "T = {}\nT.k = 1\nfunction T:m()\n  return self.k\nend\nfunc
 # Findings of the relation-only leg on the UNCHANGED code (recorded here, beside their predicates: known_findings/C12.json
 # belongs to the model side of the family; the lead may move them there verbatim - the Runner merges both lists).
 # the findings of the relation-only leg (witnesses, replayed on every run) live in known_findings/C12.json like all others
+_REDEF_CLOSURE = [("a.lua", "T = {}\nT.k = 1\nT.n = 1\nfunction T.m() end\nfunction T:m()\n  self.k = 2\n  local cb = function() return self.n end\nend\n")]
+_CLOSURE_DEF = [("a.lua", "Cfg = {}\nfunction Cfg:init()\n  local cb = function(q)\n    self.k = q\n  end\nend\nprobe(Cfg.k)\n")]
 MEMBER_FINDINGS = []
 
 
